@@ -410,22 +410,30 @@ func init() {
 				// the bearing measured at the start points to where the trip went (nano-degrees, modulo 360)
 				db := math.Mod(geo.Bearing(from, to)-bearing+540, 360) - 180
 				res = append(res, int(math.Round(db*1e6))) // micro-degrees
-				// a point along a two-leg line: at the asked distance along the line (millimetres)
+				// a point along a line of two to five legs: at the asked distance along the line (millimetres) - on whichever leg
+				// that falls, measured as the legs before it plus the way along it
 				mid := geo.PointAtBearingAndDistance(to, bearing+40, dist/2)
 				ls := orb.LineString{from, to, mid}
-				want := dist * (0.2 + 1.2*c.rng.Float64())
-				q, _ := geo.PointAtDistanceAlongLine(ls, want)
+				for j := c.rng.Intn(4); j > 0; j-- {
+					ls = append(ls, geo.PointAtBearingAndDistance(ls[len(ls)-1], bearing+float64(c.rng.Intn(160)-80), dist*(0.1+c.rng.Float64())))
+				}
 				total := geo.LengthHaversine(ls)
-				var along float64
+				want := total * 1.15 * c.rng.Float64()
+				q, _ := geo.PointAtDistanceAlongLine(ls, want)
 				if want >= total {
-					along = want // must be the last point
-					res = append(res, int(math.Round(geo.DistanceHaversine(q, mid)*1000)))
-				} else if want < geo.DistanceHaversine(from, to) {
-					along = geo.DistanceHaversine(from, q)
-					res = append(res, int(math.Round((along-want)*1000)))
+					res = append(res, int(math.Round(geo.DistanceHaversine(q, ls[len(ls)-1])*1000))) // must be the last point
 				} else {
-					along = geo.DistanceHaversine(from, to) + geo.DistanceHaversine(to, q)
-					res = append(res, int(math.Round((along-want)*1000)))
+					before := 0.0
+					for j := 0; j+1 < len(ls); j++ {
+						leg := geo.DistanceHaversine(ls[j], ls[j+1])
+						if want < before+leg {
+							res = append(res, int(math.Round((before+geo.DistanceHaversine(ls[j], q)-want)*1000)))
+							// and on that leg: no farther from its ends than the leg is long
+							res = append(res, 1000*(1-b2i(geo.DistanceHaversine(ls[j], q) <= leg+0.01 && geo.DistanceHaversine(q, ls[j+1]) <= leg+0.01)))
+							break
+						}
+						before += leg
+					}
 				}
 				// the misspelled alias agrees with LengthHaversine
 				res = append(res, int(math.Round((geo.LengthHaversign(ls)-total)*1000)))
